@@ -360,7 +360,7 @@ def search(run, info):
                 "non-trivial = every case (each is a distinct literal), distinct by source text and build",
         "families": sorted(set(c.tag for c in cases)),
         "builds": [b for b, _ in builds],
-        "exhaustive": True,
+        "exhaustive": run.tier == "thorough",
         "exhaustive_note": "the enumerated families are covered completely at the thorough tier; the quick tier samples the date and time-of-day cross products"}}
 
 
